@@ -8,6 +8,7 @@
 package upstream
 
 import (
+	"io"
 	"context"
 	"encoding/json"
 	"errors"
@@ -54,6 +55,9 @@ type vhlcCase struct {
 	Disable bool     `json:"disable"`
 	// Tenant: the upstream port is multi-tenant (the only verifier is tenant "t1"'s); every client names that tenant
 	Tenant bool     `json:"tenant"`
+	// Front: real client listeners reach the server through a TCP front that the "blackout" / "restore" ops switch off and on,
+	// and each of them runs an accept loop (the reconnect logic of the client lives in Accept)
+	Front bool `json:"front"`
 	Ops    []vhlcOp `json:"ops"`
 }
 
@@ -70,6 +74,7 @@ type vhlcObs struct {
 	Exp       int64               `json:"exp"` // token expiry (ms since scenario start), connect with tok=exp
 	Removed   []string            `json:"removed"`
 	Shed      []string            `json:"shed"`
+	Dropped   []string            `json:"dropped"` // blackout: real connections that went through the front
 	Endpoints map[string]int      `json:"endpoints"` // LoadBalancedManager.Endpoints()
 	Balancers map[string][]string `json:"balancers"` // localUpstreams[e].upstreams as connection ids
 	Cluster   map[string]int      `json:"cluster"`   // cluster.State.LocalNode().Endpoints
@@ -113,6 +118,7 @@ type vhlcRig struct {
 	srv     *Server
 	ln      net.Listener
 	stragglers []net.Conn
+	front      *vhlcFront
 	addr    string
 	start   time.Time
 	conns   map[string]*vhlcConn
@@ -123,6 +129,62 @@ type vhlcRig struct {
 	wg      sync.WaitGroup
 	failed  bool // a wait already timed out: keep later waits short
 	srvDown bool
+}
+
+// vhlcFront forwards TCP connections to the upstream port; while blocked it refuses new ones (and a blackout cuts the
+// established ones), which is what a client sees while the server is unreachable
+type vhlcFront struct {
+	ln      net.Listener
+	target  string
+	mu      sync.Mutex
+	blocked bool
+	conns   []net.Conn
+}
+
+func (f *vhlcFront) serve() {
+	for {
+		c, err := f.ln.Accept()
+		if err != nil {
+			return
+		}
+		go func(c net.Conn) {
+			f.mu.Lock()
+			blocked := f.blocked
+			f.mu.Unlock()
+			if blocked {
+				if tc, ok := c.(*net.TCPConn); ok {
+					_ = tc.SetLinger(0)
+				}
+				_ = c.Close()
+				return
+			}
+			b, err := net.DialTimeout("tcp", f.target, time.Second)
+			if err != nil {
+				_ = c.Close()
+				return
+			}
+			f.mu.Lock()
+			f.conns = append(f.conns, c, b)
+			f.mu.Unlock()
+			done := make(chan struct{}, 2)
+			go func() { _, _ = io.Copy(b, c); done <- struct{}{} }()
+			go func() { _, _ = io.Copy(c, b); done <- struct{}{} }()
+			<-done
+			_ = c.Close()
+			_ = b.Close()
+		}(c)
+	}
+}
+
+func (f *vhlcFront) cut(block bool) {
+	f.mu.Lock()
+	f.blocked = block
+	conns := f.conns
+	f.conns = nil
+	f.mu.Unlock()
+	for _, c := range conns {
+		_ = c.Close()
+	}
 }
 
 func (r *vhlcRig) ms(t time.Time) int64 { return t.Sub(r.start).Milliseconds() }
@@ -157,6 +219,14 @@ func vhlcNewRig(c vhlcCase) (*vhlcRig, error) {
 		defer r.wg.Done()
 		_ = srv.Serve(ln)
 	}()
+	if c.Front {
+		fl, err := net.Listen("tcp", "127.0.0.1:0")
+		if err != nil {
+			return nil, err
+		}
+		r.front = &vhlcFront{ln: fl, target: r.addr}
+		go r.front.serve()
+	}
 	// watcher: stamps the first time a known connection's server session is gone
 	r.wg.Add(1)
 	go func() {
@@ -474,7 +544,11 @@ func (r *vhlcRig) connect(op vhlcOp, ob *vhlcObs) {
 		if r.c.Tenant {
 			tenant = "t1"
 		}
-		up := &pikoclient.Upstream{URL: &url.URL{Scheme: "http", Host: r.addr}, Token: tok, TenantID: tenant,
+		host := r.addr
+		if r.front != nil {
+			host = r.front.ln.Addr().String()
+		}
+		up := &pikoclient.Upstream{URL: &url.URL{Scheme: "http", Host: host}, Token: tok, TenantID: tenant,
 			MinReconnectBackoff: 20 * time.Millisecond, MaxReconnectBackoff: 100 * time.Millisecond}
 		ln, err := up.Listen(ctx, op.E)
 		if err != nil {
@@ -492,6 +566,17 @@ func (r *vhlcRig) connect(op vhlcOp, ob *vhlcObs) {
 			return
 		}
 		c.real = ln
+		if r.front != nil {
+			go func() {
+				for {
+					conn, err := ln.Accept()
+					if err != nil {
+						return
+					}
+					_ = conn.Close()
+				}
+			}()
+		}
 	}
 	// identify the server side of this connection: the one new session, then its upstream in the balancer
 	deadline := time.Now().Add(5 * time.Second)
@@ -723,6 +808,30 @@ func (r *vhlcRig) apply(op vhlcOp) (ob vhlcObs) {
 		}
 		nsessTarget = -1
 		ob.Res = "ok"
+	case "blackout":
+		// the server becomes unreachable for the clients behind the front: their connections are cut, reconnects are refused
+		if r.front != nil {
+			r.mu.Lock()
+			for _, id := range r.order {
+				if c := r.conns[id]; c != nil && c.real != nil && c.wantSess {
+					ob.Dropped = append(ob.Dropped, id)
+				}
+			}
+			r.mu.Unlock()
+			r.front.cut(true)
+			for _, id := range ob.Dropped {
+				r.setWant(id, false, false)
+			}
+		}
+		ob.Res = "ok"
+	case "restore":
+		if r.front != nil {
+			r.front.cut(false)
+		}
+		if op.Ms > 0 {
+			time.Sleep(time.Duration(op.Ms) * time.Millisecond) // anything that still wants to reconnect has the time to
+		}
+		ob.Res = "ok"
 	case "straggler":
 		// a client that has connected to the upstream port and sent only part of its request (a slow handshake, a load
 		// balancer probe): for net/http it is an active connection, so a graceful shutdown cannot finish while it is there
@@ -787,6 +896,10 @@ func (r *vhlcRig) apply(op vhlcOp) (ob vhlcObs) {
 func (r *vhlcRig) teardown() {
 	for _, sc := range r.stragglers {
 		_ = sc.Close()
+	}
+	if r.front != nil {
+		_ = r.front.ln.Close()
+		r.front.cut(true)
 	}
 	r.mu.Lock()
 	conns := make([]*vhlcConn, 0, len(r.conns))
